@@ -352,6 +352,39 @@ def a9(ctx, rid):
     c03.i2(ctx, rid)
 
 
+def a10(ctx, rid):
+    """the record count of a blob equals the number of records appended to it: the per-key header vectors of the in-memory index
+    only grow (insert in push) or are reset as a whole (clear, followed by regeneration).  No element is removed from a vector
+    reached through a mutable accessor of the header map (values_mut / get_mut / iter_mut / entry) - the serializer derives the
+    on-disk records_count from the vector lengths, so pruning before a dump makes the count drop below the records in the blob
+    and differ between a dumped and a regenerated index."""
+    prog = ctx.prog
+    REM = ('retain', 'retain_mut', 'remove', 'truncate', 'drain', 'pop', 'clear', 'dedup', 'dedup_by', 'dedup_by_key', 'split_off', 'swap_remove', 'pop_first', 'pop_last')
+    ACC = ('values_mut', 'get_mut', 'iter_mut', 'entry', 'or_insert', 'or_insert_with', 'or_default', 'last_mut', 'first_mut', 'last_entry', 'first_entry')
+    n = 0
+    bad = 0
+    for f in prog.fns.values():
+        if f.file != 'src/blob/index/core.rs':
+            continue
+        for c in f.calls:
+            if c.bb not in f.reachable():
+                continue
+            if c.name in ACC and ('BTreeMap' in c.path or 'btree_map' in c.path):
+                n += 1
+            if c.name in REM and (c.path.startswith('std::vec::Vec') or 'BTreeMap' in c.path or 'slice' in c.path) and 'record::record::Header' in c.full:
+                def ext(x):
+                    return 0 if x.name in ('next', 'next_back', 'into_iter', 'rev', 'skip', 'take', 'filter', 'unwrap', 'expect', 'deref_mut', 'as_mut', 'as_mut_slice') else None
+                ogs = core.origins(f, c.args[0], extra_transparent=ext)
+                via = [o for o in ogs if o.kind == 'call' and o.data.name in ACC]
+                if via:
+                    bad += 1
+                    ctx.bad(rid, 'headers-only-grow|%s|%s' % (prog.fns[f.id].root, c.name), c.where(), '`%s` removes headers from a per-key vector of the in-memory index (reached through `%s`): the index no longer lists every record of the blob, records_count (derived from the vector lengths at the next dump) drops below the number of appended records' % (c.name, via[0].data.name))
+    if n < 1:
+        raise core.AnchorLost('mutable accessors of the header map in src/blob/index/core.rs: %d' % n)
+    if not bad:
+        ctx.ok(rid, 'headers-only-grow|scan', '', '%d mutable accesses to the header map, none followed by an element removal' % n, queries=n)
+
+
 RULES = [
     Rule('C15.A1', 'every header insertion is counted exactly once; the loader seeds the count from the index file, not from the key map', a1, 5),
     Rule('C15.A2', 'public accessors of the closed-blob vector agree that empty slots are absent', a2, 4),
@@ -361,5 +394,6 @@ RULES = [
     Rule('C15.A7', 'a blob moved out of the active slot or the closed list is handed back on every non-error exit (never dropped from the accounting)', a7, 4),
     Rule('C15.A8', 'an assignment into the active slot never overwrites a live blob (C04.T7 instances)', a8, 4),
     Rule('C15.A9', 'a count is taken from an index file only after the full validation gate (C03.I2 instances)', a9, 2),
+    Rule('C15.A10', 'per-key header vectors of the in-memory index only grow or are cleared as a whole', a10, 1),
     Rule('C15.A6', 'next_blob_id is fed by the ids of opened, failed and quarantined blobs (C07.H6/H6d instances)', a6, 4),
 ]
